@@ -246,8 +246,9 @@ def r_unsolved_program(ctx):
                     return call_method(o2, nm, solved, depth + 1)
             if nm in ("dot", "inner", "vdot") and len(node.args) == 2:
                 a, b = it.ev(node.args[0]), it.ev(node.args[1])
-                if isinstance(a, tuple) and isinstance(b, tuple) and a[:1] == ("vec",) and b[:1] == ("vec",):
-                    return Rat.sym("<%s,%s>" % tuple(sorted((a[1], b[1]))))
+                if isinstance(a, VecObj) and isinstance(b, VecObj) and len(a.val.d) == 1 and len(b.val.d) == 1:
+                    (ka, wa), (kb, wb) = list(a.val.d.items())[0], list(b.val.d.items())[0]
+                    return Rat.sym("<%s,%s>" % tuple(sorted((str(ka), str(kb))))) * wa * wb
             if nm in ("array", "asarray") and len(node.args) == 1 and isinstance(f, ast.Attribute):
                 v = it.ev(node.args[0])
                 if isinstance(v, list):
@@ -257,7 +258,9 @@ def r_unsolved_program(ctx):
         return it.run(fn.body)
 
     for solved in (False, True):
-        pts = [SymObj("Point", label="p%d" % k, counter=k, _is_leaf=True, _value=("vec", "p%d" % k) if solved else None) for k in range(2)]
+        from ..miniint import VecObj
+        from ..nf import PointV
+        pts = [SymObj("Point", label="p%d" % k, counter=k, _is_leaf=True, _value=VecObj("Point", PointV.atom("p%d" % k)) if solved else None) for k in range(2)]
         exs = [SymObj("Expression", label="e%d" % k, counter=k, _is_leaf=True, _value=Rat.sym("val_e%d" % k) if solved else None) for k in range(2)]
         for o in pts + exs:
             o.attrs["decomposition_dict"] = {o: 1}
@@ -269,7 +272,8 @@ def r_unsolved_program(ctx):
                      _dual_variable_value=Rat.sym("lambda") if solved else None, counter=0)
         lmi = SymObj("PSDMatrix", label="lmi", matrix_of_expressions=[[exs[0], dex], [exs[1], exs[1]]], shape=(2, 2), _value=None,
                      _dual_variable_value=("dual-matrix",) if solved else None, counter=0, entries_dual_variable_value=None)
-        cases = [("Point.eval, leaf", pts[0], "eval", ("vec", "p0")), ("Point.eval, combination", dpt, "eval", None),
+        want_dpt = VecObj("Point", PointV.atom("p0").scale(Rat(2)) - PointV.atom("p1")) if solved else None
+        cases = [("Point.eval, leaf", pts[0], "eval", pts[0].attrs["_value"]), ("Point.eval, combination", dpt, "eval", want_dpt),
                  ("Expression.eval, leaf", exs[0], "eval", Rat.sym("val_e0")), ("Expression.eval, combination", dex, "eval", want_dex),
                  ("Constraint.eval", con, "eval", want_dex), ("Constraint.eval_dual", con, "eval_dual", Rat.sym("lambda")),
                  ("PSDMatrix.eval", lmi, "eval", [[Rat.sym("val_e0"), want_dex], [Rat.sym("val_e1"), Rat.sym("val_e1")]]),
@@ -277,8 +281,6 @@ def r_unsolved_program(ctx):
         for label, obj, meth, want in cases:
             if (obj.kind, meth) not in methods:
                 continue
-            if solved and want is None:
-                continue          # the value of a combination of points is an array expression (decided by R-EVALSHAPE on the loop)
             fn = methods[(obj.kind, meth)]
             msg = None
             try:
@@ -287,7 +289,10 @@ def r_unsolved_program(ctx):
                     msg = "returns `%r` although nothing has been solved" % (ret,)
                 else:
                     from ..miniint import _deep_eq
-                    if not _deep_eq(ret, want):
+                    if isinstance(want, VecObj):
+                        if not (isinstance(ret, VecObj) and ret.val.equals(want.val)):
+                            msg = "returns `%r`, expected `%r`" % (ret, want)
+                    elif not _deep_eq(ret, want):
                         msg = "returns `%r`, expected `%r`" % (ret, want)
             except ProgramRaise as ex:
                 if solved:
